@@ -334,9 +334,41 @@ def run_runtime_case(case, res):
         res.nontrivial(h64([case["prog"], case["regs"], mode]))
 
 
+UNIMPL = ["fence x0, x0", "ebreak", "csrrw x1, 0xC00, x2", "csrrs x1, 0x300, x0", "csrrwi x1, 0xFFF, 3", "csrrc x3, 0xF11, x4", "csrrsi x0, 0x3A0, 1"]
+
+
+def run_unimpl_case(case, res):
+    """single-cycle mode: the documented-as-unimplemented / privileged instructions fail at run time; that failure,
+    too, is an instruction-execution error carrying the address and the printed form of the instruction"""
+    from architecture_simulator.simulation.runtime_errors import InstructionExecutionException
+
+    sim = make_riscv("single")
+    try:
+        sim.load_program(case["text"])
+    except Exception:
+        return
+    lst = dict(sim.state.instruction_memory.get_representation())
+    n = 0
+    try:
+        while not sim.is_done() and n < 60:
+            sim.step()
+            n += 1
+    except InstructionExecutionException as e:
+        res.count("unimplemented_instruction_failures")
+        if lst.get(e.address) != e.instruction_repr or e.address != case["at"]:
+            res.violation("C15", "runtime-report", "failure of %r reported with address %r and text %r; the listing has %r there (failing instruction at %d)" % (case["instr"], e.address, e.instruction_repr, lst.get(e.address), case["at"]), case)
+        return
+    except Exception as e:
+        res.violation("C15", "untyped-runtime-error", "single-cycle: a failing %r raised %s: %s instead of an instruction-execution error" % (case["instr"], type(e).__name__, str(e)[:100]), case)
+        return
+    res.count("unimplemented_instruction_ran")
+
+
 def run_case(prop, case, res):
     if case["kind"] == "text":
         classify_load(case["sim"], case["text"], res, case, case.get("faults"))
+    elif case["kind"] == "unimpl":
+        run_unimpl_case(case, res)
     else:
         run_runtime_case(case, res)
 
@@ -345,6 +377,11 @@ def run_shard(spec, res):
     rng = rng_for("C15", spec["tier"], spec["seed"], spec["kind"], spec["shard"])
     k = spec["kind"]
     if k == "directed":
+        for i_, ins in enumerate(UNIMPL):
+            for pre in (0, 1, 3, 11):
+                text = "\n".join(["addi x5, x5, 1"] * pre + [ins, "addi x6, x6, 1"])
+                guarded(run_case, "C15", {"kind": "unimpl", "text": text, "instr": ins, "at": 4 * pre}, res)
+                res.evaluations += 1
         for sim, text, kinds in directed_texts():
             guarded(run_case, "C15", {"kind": "text", "sim": sim, "text": text, "faults": kinds}, res)
             res.evaluations += 1
@@ -399,6 +436,11 @@ def run_shard(spec, res):
                 res.count("runtime_cases_with_cache")
         if "hostile-literal" in case.get("faults", []):
             res.count("hostile_literals_injected")
+        if case["kind"] == "text" and rng.random() < 0.12:
+            # the editor of another platform: CRLF line endings (a line is still a line)
+            case["text"] = case["text"].replace("\r\n", "\n").replace("\n", "\r\n")
+            case["faults"] = list(case.get("faults") or []) + ["crlf"]
+            res.count("crlf_texts")
         guarded(run_case, "C15", case, res)
         res.evaluations += 1
         if it < 2:
